@@ -51,6 +51,7 @@ type FileSpec struct {
 	Content string `json:"content"`
 	B64     string `json:"b64,omitempty"` // binary content (takes precedence)
 	Dir     bool   `json:"dir,omitempty"`
+	LinkTo  string `json:"link_to,omitempty"` // the file is a symbolic link to this path (relative to the run directory)
 	Mode    uint32 `json:"mode,omitempty"`
 }
 
